@@ -4,11 +4,11 @@
    the occurrences of names by syntactic role, by plain recursion on the derivation.
      names_flatten      : the flat tree the grammar assigns to e has exactly these occurrences, in order
      names_exact_render : parsing the token text of e fires the callbacks for exactly these occurrences
-     names_exact_string : hence any string whose token stream is render e, parsed on the shared parser after
+     names_exact_string : hence any string whose token stream is render e (its brackets then balance: ParserStateBr), parsed on the shared parser after
                           any history, reports exactly evars e / efuncs e / esufs e *)
 From Coq Require Import ZArith QArith List Bool Lia Arith Permutation.
 From Verif.Model Require Import Result Lexer Parser Eval EvalSpec ParserStateCb ParserState.
-From Verif.Proofs Require Import ParserRoundTrip EvalFlatten ParserStateCb ParserState.
+From Verif.Proofs Require Import ParserRoundTrip EvalFlatten ParserStateCb ParserState ParserStateBr.
 Import ListNotations.
 Local Open Scope nat_scope.
 
@@ -154,12 +154,12 @@ Qed.
    history of calls, reports exactly the occurrences of the derivation *)
 Theorem names_exact_string : forall junk ops s e,
   wf_expr e = true ->
-  check_brackets (strip_spaces s) = None ->
   lex (strip_spaces s) = Some (render e) ->
   exists l, snd (step junk faithful (run junk faithful init ops) (OParse s)) = VP (VTree (flatten e) l) /\
             nperm l (enames e).
 Proof.
-  intros junk ops s e W B L.
+  intros junk ops s e W L.
+  assert (B : check_brackets (strip_spaces s) = None) by (apply (brackets_of_print _ (flatten e)); exact L).
   destruct (names_exact_render e W) as (log & H1 & H2).
   pose proof (step_spec junk (run junk faithful init ops) (OParse s) (reachable_inv junk ops)) as P.
   destruct (step junk faithful (run junk faithful init ops) (OParse s)) as [st' v].
@@ -171,15 +171,14 @@ Qed.
    that occurs only as a function head is not reported as a variable and vice versa *)
 Corollary names_exact_membership : forall junk ops s e,
   wf_expr e = true ->
-  check_brackets (strip_spaces s) = None ->
   lex (strip_spaces s) = Some (render e) ->
   exists l, snd (step junk faithful (run junk faithful init ops) (OParse s)) = VP (VTree (flatten e) l) /\
             forall x, (In x (n_vars l) <-> In x (evars e)) /\
                       (In x (n_funcs l) <-> In x (efuncs e)) /\
                       (In x (n_sufs l) <-> In x (esufs e)).
 Proof.
-  intros junk ops s e W B L.
-  destruct (names_exact_string junk ops s e W B L) as (l & H1 & H2).
+  intros junk ops s e W L.
+  destruct (names_exact_string junk ops s e W L) as (l & H1 & H2).
   exists l. split; [assumption|]. intro x.
   split; [apply (nperm_in_vars l (enames e) x H2)|].
   split; [apply (nperm_in_funcs l (enames e) x H2)|apply (nperm_in_sufs l (enames e) x H2)].
